@@ -253,6 +253,11 @@ void hx_digest(const hx_obs *o, hx_buf *out, int flags) {
     }
     hb_puts(out, "final:\n");
     hb_put(out, o->dump.p, o->dump.n);
+    if (flags & DG_MASK_PIPE) {
+        hb_term(out);
+        char *p = strstr((char *) out->p, "final:\nconn flags=");
+        if (p) { p += 18; char *e = p; while ((*e >= '0' && *e <= '9') || (*e >= 'a' && *e <= 'f')) e++; if (e > p) { int v = e[-1] <= '9' ? e[-1] - '0' : e[-1] - 'a' + 10; v &= ~HTP_CONN_PIPELINED; e[-1] = (char) (v < 10 ? '0' + v : 'a' + v - 10); } }
+    }
     if (flags & DG_MASK_MPH) {
         hb_term(out);
         char *p = (char *) out->p;
